@@ -1,6 +1,10 @@
 package metric
 
-import vrt "github.com/goark/go-cvss/internal/zzvrt"
+import (
+	"math"
+
+	vrt "github.com/goark/go-cvss/internal/zzvrt"
+)
 
 func pickEnv() (suffix string, cdp, td, cr, ir, ar string) {
 	cdp = vrt.Pick("CDP", "ND", "N", "L", "LM", "MH", "H")
@@ -12,29 +16,10 @@ func pickEnv() (suffix string, cdp, td, cr, ir, ar string) {
 	return
 }
 
-// envFromTemp: admissible environmental results for an adjusted temporal score t (tenth index).
-func envFromTemp(got float64, t int, cdp, td string) bool {
-	at := vrt.RDivInt(vrt.RInt(t), 10)
-	x := vrt.RMul(vrt.RAdd(at, vrt.RMul(vrt.RSub(vrt.RInt(10), at), specCDP(cdp))), specTD(td))
-	a, b := round1(x)
-	return in2(got, a, b)
-}
-
-// envFromBase: admissible results for an adjusted base score b (tenth index).
-func envFromBase(got float64, b int, tpresent bool, e, rl, rc, cdp, td string) bool {
-	if !tpresent {
-		return envFromTemp(got, b, cdp, td)
-	}
-	t1, t2 := round1(specTempEq(b, e, rl, rc))
-	return envFromTemp(got, t1, cdp, td) || envFromTemp(got, t2, cdp, td)
-}
-
-func envFromEq(got float64, x R, tpresent bool, e, rl, rc, cdp, td string) bool {
-	b1, b2 := round1(x)
-	return envFromBase(got, b1, tpresent, e, rl, rc, cdp, td) || envFromBase(got, b2, tpresent, e, rl, rc, cdp, td)
-}
-
-// C05: all 729 x 101 x 1,920 vectors with an environmental group.
+// C05: all 729 x 101 x 1,920 vectors with an environmental group, as a chain of step lemmas on the
+// library's own intermediate values (each intermediate is recomputed here with the same expression the
+// library uses, so that it is the very same term; the last assertion ties Score() to the chain):
+//   adjusted impact -> adjusted base score -> adjusted temporal score -> environmental score.
 func VH_C05_env() {
 	vec, av, ac, au, c, i, a := pickBase()
 	tp := vrt.Pick("tgroup", "absent", "present")
@@ -49,23 +34,74 @@ func VH_C05_env() {
 	if err != nil {
 		return
 	}
-	got := em.Score()
-	ai := specAdjImpact(c, i, a, cr, ir, ar)
+	// step 1: adjusted impact
+	ai := math.Min(10.0, roundTo2Decimal(10.41*(1-(1-em.C.Value()*em.CR.Value())*(1-em.I.Value()*em.IR.Value())*(1-em.A.Value()*em.AR.Value()))))
+	ak := hundredthIndex(ai)
+	vrt.Assert(ai == float64(ak)/100, "adjusted impact (as the library computes it) is on the 0.01 grid")
+	aiR := vrt.RDivInt(vrt.RInt(ak), 100)
+	exactAI := specAdjImpact(c, i, a, cr, ir, ar)
+	a1, a2 := round2i(exactAI)
+	vrt.Assert(ak == a1 || ak == a2, "adjusted impact is min(10, 10.41 x (1 - prod)) up to the two-decimal rounding of finding F1")
+	vrt.Assert(vrt.REq(aiR, exactAI), "KF:F1-env: adjusted impact is used unrounded")
+	// step 2: adjusted base score = base equation on (adjusted impact, exploitability)
+	vrt.Assert(!em.IsEmpty() && em.Temporal.IsEmpty() == !tpresent, "group emptiness is reported as written")
+	var b float64
+	if em.IsEmpty() { // mirrors the structure of Score(), so that the intermediates are the library's own terms
+		b = em.Base.Score()
+	} else {
+		b = em.Base.score(ai)
+	}
+	bi := tenthIndex(b)
+	vrt.Assert(b == tenth(bi), "adjusted base score is on the tenth grid")
 	ex := specExpl(av, ac, au)
-	eq := specBaseEq(ai, ex)
-	neg := vrt.RLt(eq, vrt.RInt(0))
-	inSpec := envFromEq(got, eq, tpresent, e, rl, rc, cdp, td) || (neg && got == 0)
-	// deviation model (finding F1): AdjustedImpact and Exploitability rounded to two decimals first
-	a1, a2 := round2(ai)
 	e1, e2 := round2(ex)
-	inDev := envFromEq(got, specBaseEq(a1, e1), tpresent, e, rl, rc, cdp, td) ||
-		envFromEq(got, specBaseEq(a1, e2), tpresent, e, rl, rc, cdp, td) ||
-		envFromEq(got, specBaseEq(a2, e1), tpresent, e, rl, rc, cdp, td) ||
-		envFromEq(got, specBaseEq(a2, e2), tpresent, e, rl, rc, cdp, td)
-	vrt.Assert(inSpec || inDev, "v2 environmental score is the FIRST equation, or the FIRST equation with two-decimal sub-scores (finding F1)")
-	vrt.Assert(inSpec, "KF:F1-env: v2 environmental score equals the FIRST equation on unrounded sub-scores")
+	s1, s2 := round1(specBaseEq(aiR, ex))
+	d1, d2 := round1(specBaseEq(aiR, e1))
+	d3, d4 := round1(specBaseEq(aiR, e2))
+	inSpec := bi == s1 || bi == s2
+	vrt.Assert(inSpec || bi == d1 || bi == d2 || bi == d3 || bi == d4, "adjusted base score is the base equation on the adjusted impact (exploitability up to the two-decimal rounding of finding F1)")
+	vrt.Assert(inSpec, "KF:F1-env-expl: exploitability is used unrounded in the adjusted base score")
+	// step 3: adjusted temporal score
+	var at float64
+	if em.Temporal.IsEmpty() {
+		at = b
+	} else {
+		at = em.Temporal.score(b)
+	}
+	ti := tenthIndex(at)
+	vrt.Assert(at == tenth(ti), "adjusted temporal score is on the tenth grid")
+	if tpresent {
+		t1, t2 := round1(specTempEq(bi, e, rl, rc))
+		vrt.Assert(ti == t1 || ti == t2, "adjusted temporal score = round1(adjusted base x E x RL x RC)")
+	}
+	// step 4: environmental score = the outer equation applied to the adjusted temporal score
+	// (the outer equation itself is checked for every grid value by VH_C05_outer_kernel)
+	score := em.Score()
+	vrt.Assert(ti >= -20 && ti <= 100, "adjusted temporal score lies within the range covered by the outer-equation lemma")
+	vrt.Assert(score == roundTo1Decimal((at+(10-at)*em.CDP.Value())*em.TD.Value()), "environmental score is the outer equation applied to the adjusted temporal score")
+	vrt.Assert(em.CDP == specCodeCDP(cdp) && em.TD == specCodeTD(td), "CDP and TD hold the written values")
+}
+
+// C05 outer-equation lemma: for every adjusted temporal score on the tenth grid in [-2.0, 10.0] and every
+// CDP / TD value, roundTo1Decimal((at + (10-at) x CDP) x TD) with the library's weights is the FIRST
+// equation rounded to one decimal (either neighbour at an exact half), and 0 when TD is None.
+func VH_C05_outer_kernel() {
+	k := vrt.Enum("at", -20, 100)
+	cdp := vrt.Pick("CDP", "ND", "N", "L", "LM", "MH", "H")
+	td := vrt.Pick("TD", "ND", "N", "L", "M", "H")
+	at := tenth(k)
+	got := roundTo1Decimal((at + (10-at)*GetCollateralDamagePotential(cdp).Value()) * GetTargetDistribution(td).Value())
+	gi := tenthIndex(got)
+	vrt.Assert(got == tenth(gi), "result is on the tenth grid")
+	atR := vrt.RDivInt(vrt.RInt(k), 10)
+	x := vrt.RMul(vrt.RAdd(atR, vrt.RMul(vrt.RSub(vrt.RInt(10), atR), specCDP(cdp))), specTD(td))
+	g1, g2 := round1(x)
+	vrt.Assert(gi == g1 || gi == g2, "outer equation = round1((AdjustedTemporal + (10 - AdjustedTemporal) x CDP) x TD)")
 	if td == "N" {
 		vrt.Assert(got == 0, "Target Distribution None: environmental score is 0")
+	}
+	if k >= 0 {
+		vrt.Assert(gi >= 0 && gi <= 100, "non-negative adjusted temporal scores give environmental scores in 0.0 .. 10.0")
 	}
 }
 
